@@ -187,25 +187,26 @@ Section Visit.
       rewrite (ns_node (K KMember lo hi)) in Z; [|reflexivity|cbn; exact NO]. cbn [mul fold_right] in Z.
       pose proof (visit_prop _ _ _ _ _ _ Hp M ltac:(lia)) as VP.
       unfold hoist_member.
-      destruct (if is_ident obj1 || is_kind KThis obj1 then (obj1, a, p)
+      destruct (if (is_ident obj1 || is_kind KThis obj1) && negb (key_hoisted prop1) then (obj1, a, p)
                 else let '(id, a1, p1) := get_temporal c obj1 span IKExpr a p in
                      (match id with Some i => i | None => obj1 end, a1, p1)) as [[obj2 a1] p1] eqn:E1.
       destruct (hoist_key c prop1 span a1 p1) as [[prop2 a2] p2] eqn:E2.
       intros X; inversion X; subst.
       assert (O : mu obj2 = 0 /\ is_ns_ident obj2 = false).
-      { destruct (is_ident obj1) eqn:I.
-        - simpl in E1. inversion E1; subst. rewrite (op_visit_ident_fix _ _ _ _ _ _ _ Ho I). split; [lia | exact NO].
-        - simpl in E1. destruct (is_kind KThis obj1) eqn:T.
-          + inversion E1; subst. unfold is_kind in T.
-            destruct obj2 as [[k2 l2 h2| | | | | |] ocs]; try discriminate T. simpl in T.
+      { destruct ((is_ident obj1 || is_kind KThis obj1) && negb (key_hoisted prop1)) eqn:B.
+        - apply andb_true_iff in B. destruct B as [B _]. inversion E1; subst obj2 a1 p1.
+          destruct (is_ident obj1) eqn:I.
+          + rewrite (op_visit_ident_fix _ _ _ _ _ _ _ Ho I). split; [lia | exact NO].
+          + simpl in B. rename B into T. unfold is_kind in T.
+            destruct obj1 as [[k2 l2 h2| | | | | |] ocs]; try discriminate T. simpl in T.
             unfold kind_eqb in T. destruct (kind_eq_dec KThis k2); [subst | discriminate].
             split; [apply ns_leaf; reflexivity | reflexivity].
-          + destruct (get_temporal c obj1 span IKExpr a p) as [[id a3] p3] eqn:G. inversion E1; subst.
-            split; [|eapply get_temporal_not_ns; exact G].
-            pose proof G as G0. apply (get_temporal_ns (stop:=stop) (kappa:=kappa)) in G. destruct G as [_ Y].
-            destruct id as [i|]; [apply Y; discriminate|].
-            unfold get_temporal in G0. destruct (is_lit obj1) eqn:L; [apply ns_lit; exact L|].
-            unfold next_ident in G0. cbn [fst snd] in G0. inversion G0. }
+        - destruct (get_temporal c obj1 span IKExpr a p) as [[id a3] p3] eqn:G. inversion E1; subst.
+          split; [|eapply get_temporal_not_ns; exact G].
+          pose proof G as G0. apply (get_temporal_ns (stop:=stop) (kappa:=kappa)) in G. destruct G as [_ Y].
+          destruct id as [i|]; [apply Y; discriminate|].
+          unfold get_temporal in G0. destruct (is_lit obj1) eqn:L; [apply ns_lit; exact L|].
+          unfold next_ident in G0. cbn [fst snd] in G0. inversion G0. }
       destruct O as [O N2].
       rewrite (ns_node (K KMember lo hi)); [|reflexivity|cbn; exact N2]. cbn [mul fold_right].
       rewrite (hoist_key_clean _ _ _ _ _ _ _ _ _ VP E2).
@@ -270,7 +271,7 @@ Section Targets.
         destruct k; try discriminate T.
         * destruct cs as [|o [|pr [|? ?]]]; try discriminate T. destruct fuel as [|f]; [discriminate|].
           apply visit_member in H. destruct H as (o1 & p1 & s2 & -> & _). unfold hoist_member in E.
-          destruct (if is_ident o1 || is_kind KThis o1 then _ else _) as [[? ?] ?].
+          destruct (if (is_ident o1 || is_kind KThis o1) && negb (key_hoisted p1) then _ else _) as [[? ?] ?].
           destruct (hoist_key c p1 span _ _) as [[? ?] ?]. discriminate E.
         * destruct cs as [|o [|pr [|? ?]]]; try discriminate T. destruct fuel as [|f]; [discriminate|].
           apply visit_superprop in H. destruct H as (o1 & p1 & s2 & -> & _). unfold hoist_member in E.
